@@ -46,6 +46,7 @@ PROP = {
         note=TB + "payload bytes beyond 5 are one Vec::from copy (outside); reading through LowMarkBufReader is C04; logging off (log = None).",
         technique="bounded model checking of the real code (Kani/CBMC): shape-enumerated accept/reject lemmas + inductive iterator step"),
     "jobs": {"quick": 7, "thorough": 5},
+    "seed_extra": [("c01_acc_", 1, 40)],
     "inject": [("src/dlt/mod.rs", "dlt_frame.rs"), ("src/utils/dltmessageiterator.rs", "dlt_iter.rs"), ("src/utils/dltmessageiterator.rs", "dlt_iter_abs.rs")],
     "functions": ["dlt::parse_dlt_with_storage_header", "dlt::parse_dlt_with_serial_header", "DltMessage::from_headers", "DltStorageHeader::{from_buf,reception_time_us}",
                   "DltStandardHeader::{from_buf,std_ext_header_size,ecu,timestamp_dms}", "DltExtendedHeader::from_buf", "is_storage_header_pattern", "is_serial_header_pattern",
